@@ -1,5 +1,5 @@
 From Coq Require Import Extraction ExtrOcamlBasic.
-From FluteV Require Import Model.SenderCtl Spec.SenderSpec.
+From FluteV Require Import Model.SenderCtl Spec.SenderSpec Spec.FdtCloseSpec.
 Extraction Language OCaml.
 Extraction "../ocaml/gen/c11_model.ml" init_st step run_ops files_view evlog Z.of_N Z.to_N N.of_nat N.to_nat Z.div Z.modulo Z.add Z.mul Z.sub Z.ltb N.ltb N.eqb
-  P_C11 P_C12_wire P_C12_counter c12_objs P_C13_priority P_C14_start_time P_C14_pacing P_C14_carousel_gap in_D23 sender_read P_C13_events known_D27 known_D42 P_C12_close_flag.
+  P_C11 P_C12_wire P_C12_counter c12_objs P_C13_priority P_C14_start_time P_C14_pacing P_C14_carousel_gap in_D23 sender_read P_C13_events known_D27 known_D42 P_C12_close_flag P_C08_fdt_close_flag.
